@@ -13,6 +13,10 @@ CLAIMS = {
          "Trusted: Coq kernel; Gen/Tables.v reflection printer; Tag::from_wire being the inverse of wire_value is checked by a sweep over 32-bit words (2^24 per quick run, all 2^32 in thorough), not proved; hand-written model tied by correspondence."),
  "C06": ("Theorems for every byte string of any length: from_bytes never reaches a panic site of the model; values of an accepted message are exactly the bytes after the header; to_string returns normally for every message with recursion bounded by MAX_DISPLAY_DEPTH. Tied by differential execution including display under catch_unwind in a 2 MiB-stack thread.",
          "Trusted: Coq kernel; the model's panic sites are those of message.rs (hand-mapped; a removed guard shows up as impl-panics-where-model-errs); a real stack overflow can only be observed (process crash is reported), not proved absent."),
+ "C13": ("Theorems for every seed and every operation sequence on one signer object (any chunking, any number of messages): each signature is the one-shot signature of its own message's concatenated chunks, nothing carries over a sign(); the verifier's verdict is the direct verification and it panics exactly on a non-point key / non-64-byte signature. Tied to sign.rs by running operation sequences on the real MsgSigner/MsgVerifier; the byte strings the model says are signed are signed by one-shot ed25519-dalek and by a pure-Python RFC 8032 transcription and compared.",
+         "Trusted: Coq kernel; Ed25519 itself is abstract in the theorems (any one-shot primitive); that dalek's one-shot API is RFC 8032 is cross-checked against the Python transcription on a sample, not proved."),
+ "C17": ("Theorems for every event history, limit, split across workers and snapshot points: conservation (each event in its own counter or in the overflow count, exactly once), boundedness, per-client = aggregated totals without overflow, reporter merge preserves per-address sums. Tied to stats/*.rs by bounded-exhaustive and random operation sequences on the real recorders (hook: PerClientStats::with_limit, Reporter::merged_client_stats) and by in-process server traffic read back through Server::stats_recorder.",
+         "Trusted: Coq kernel; counters are unbounded N in the model (u32/usize widths are a stated bound, < 2^32 events per address per interval); first_seen timestamps, CSV/zstd persistence not modelled."),
 }
 
 def main():
@@ -23,7 +27,7 @@ def main():
      "hooks": {"guard": "roughenough_verif",
                "enable": "RUSTFLAGS=\"--cfg roughenough_verif\" (set by py/vlib.py for every cargo build of /repo and of harness/)",
                "baseline_off_cmd": "cd /repo && cargo test --workspace --no-fail-fast --offline",
-               "source_commits": ["a8e355e"], "add_only": False},
+               "source_commits": ["a8e355e", "9b4e0d4"], "add_only": False},
      "engines": [
        {"name": "coq-model", "path": "coq/", "serves_properties": sorted(CLAIMS),
         "kind_free_text": "Coq 8.16.1 development: hand-written Gallina model mirroring the Rust control flow (panics as values), independent executable specs, theorems in Properties/Cnn.v; Gen/Tables.v regenerated from /repo by API reflection on every run"},
